@@ -42,6 +42,25 @@ def render(sig):
   return 'def f(%s):\n  return (%s)' % (', '.join(parts), ''.join(s + ', ' for s in scal) or '()'), scal
 
 
+def render_member(kind, sig):
+  """The signature of render(sig) as a method / classmethod / staticmethod / constructor of a class C; returns (source, callee)."""
+  src, scal = render(sig)
+  ps = src.splitlines()[0][len('def f('):-2]
+  ret = '(%s)' % (''.join(s + ', ' for s in scal) or '()')
+  first = lambda name: name + (', ' + ps if ps else '')
+  if kind == 'method':
+    return 'class C:\n  def f(%s):\n    return %s\n' % (first('self'), ret), 'C().f'
+  if kind == 'classmethod':
+    return 'class C:\n  @classmethod\n  def f(%s):\n    return %s\n' % (first('cls'), ret), 'C.f'
+  if kind == 'classmethod_inst':
+    return 'class C:\n  @classmethod\n  def f(%s):\n    return %s\n' % (first('cls'), ret), 'C().f'
+  if kind == 'staticmethod':
+    return 'class C:\n  @staticmethod\n  def f(%s):\n    return %s\n' % (ps, ret), 'C.f'
+  if kind == 'init':
+    return 'class C:\n  def __init__(%s):\n    self.v = %s\n' % (first('self'), ret), 'C'
+  return 'class C:\n  def __new__(%s):\n    return object.__new__(cls)\n' % first('cls'), 'C'
+
+
 def main():
   mode, repo = sys.argv[1], sys.argv[2]
   payload = json.loads(sys.stdin.read() or '{}')
@@ -145,12 +164,125 @@ def main():
           violations.append(dict(kind='bind-error', program='def f(%s): ...\nf.__defaults__ = %s\nf%s' % (sg, tp, c),
                                  what='def f(%s); f.__defaults__ = %s; f%s: CPython %s, pytype %s' % (
                                      sg, tp, c, 'raises TypeError' if want[4 + i] else 'binds', 'reports an error' if (4 + i) in got else 'reports nothing')))
+  # methods, classmethods, staticmethods and constructors (the property's quantifier): the same signatures behind a bound first
+  # parameter; keywords named like it ('self', 'cls') included
+  nmeth = 0
+  kwpool2 = kwpool + ['self', 'cls']
+  kwsets2 = [()] + [(k,) for k in kwpool2] + list(itertools.combinations(kwpool2, 2))
+  allshapes2 = [(n, ks) for n in range(5) for ks in kwsets2]
+  for kind in ('method', 'classmethod', 'classmethod_inst', 'staticmethod', 'init', 'new'):
+    for sig in rnd.sample(sigs, 8 if tier == 'quick' else 60):
+      src, callee = render_member(kind, sig)
+      shapes = rnd.sample(allshapes2, 20 if tier == 'quick' else 60)
+      body = src.rstrip('\n')
+      base = len(body.splitlines())
+      env = {}
+      exec(src, env)   # pylint: disable=exec-used
+      lines = [body]
+      want = []
+      for li, (n, ks) in enumerate(shapes):
+        call = '%s(%s)' % (callee, ', '.join([str(i) for i in range(n)] + ["%s='s'" % k for k in ks]))
+        lines.append('r%d = %s' % (li, call))
+        try:
+          r = eval(call, env)   # pylint: disable=eval-used
+          want.append((False, [type(v).__name__ for v in r] if isinstance(r, tuple) else None))
+        except TypeError:
+          want.append((True, None))
+      prog = '\n'.join(lines) + '\n'
+      try:
+        analysis = io.generate_pyi_ast(prog, opts)
+      except Exception as e:  # pylint: disable=broad-except
+        violations.append(dict(kind='vm-crash', what='analysis raised %r' % (e,), program=prog))
+        continue
+      got = {e.line: e.name for e in analysis.context.errorlog.unique_sorted_errors() if e.name in ERRS}
+      consts = {c.name: pytd_utils.Print(c.type) for c in analysis.ast.constants}
+      for li in range(len(shapes)):
+        nmeth += 1
+        line = base + 1 + li
+        if want[li][0] != (line in got):
+          if len(violations) < 20:
+            violations.append(dict(kind='bind-error', program=body + '\n' + lines[1 + li],
+                                   what='%s: %s ; %s: CPython %s, pytype %s' % (
+                                       kind, ' '.join(x.strip() for x in body.splitlines()[:-1]), lines[1 + li],
+                                       'raises TypeError' if want[li][0] else 'binds',
+                                       'reports ' + got[line] if line in got else 'reports nothing')))
+        elif want[li][1] is not None and kind not in ('init', 'new'):
+          t = consts.get('r%d' % li, '')
+          inner = t[t.find('[') + 1:t.rfind(']')] if '[' in t else ''
+          got_types = [x.strip() for x in inner.split(',')] if inner else []
+          if got_types != want[li][1] and len(violations) < 20:
+            violations.append(dict(kind='bind-value', program=body + '\n' + lines[1 + li],
+                                   what='%s: %s ; %s: parameters receive %s under CPython but pytype infers %s' % (
+                                       kind, ' '.join(x.strip() for x in body.splitlines()[:-1]), lines[1 + li], want[li][1], t)))
+  # functions, methods and constructors declared in a stub (PyTDFunction / PyTDSignature binding): the same signatures in a .pyi on
+  # the pythonpath, called from an analysed program; oracle: a def with the same parameter list
+  npytd = 0
+  import shutil  # pylint: disable=g-import-not-at-top
+  import tempfile  # pylint: disable=g-import-not-at-top
+  d = tempfile.mkdtemp(prefix='c13_native_')
+  try:
+    sel = rnd.sample(sigs, 16 if tier == 'quick' else 120)
+    stub, py = [], []
+    for i, sig in enumerate(sel):
+      ps = render(sig)[0].splitlines()[0][len('def f('):-2]
+      pyi_ps = ps.replace('=1.5', '=...').replace('=2j', '=...')
+      more, pyi_more = (', ' + ps) if ps else '', (', ' + pyi_ps) if pyi_ps else ''
+      stub.append('def f%d(%s) -> int: ...' % (i, pyi_ps))
+      stub.append('class K%d:\n  def m(self%s) -> int: ...\n  def __init__(self%s) -> None: ...' % (i, pyi_more, pyi_more))
+      py.append('def f%d(%s): return 0' % (i, ps))
+      py.append('class K%d:\n  def m(self%s): return 0\n  def __init__(self%s): pass' % (i, more, more))
+    with open(os.path.join(d, 'c13stub.pyi'), 'w') as f:
+      f.write('\n'.join(stub) + '\n')
+    env = {}
+    exec('\n'.join(py), env)   # pylint: disable=exec-used
+    ns = type('c13stub', (), {})()
+    ns.__dict__.update(env)
+    popts = config.Options.create(python_version=(3, 12), pythonpath=d)
+    for i, sig in enumerate(sel):
+      shapes = rnd.sample(allshapes2, 15 if tier == 'quick' else 50)
+      calls = []
+      for callee in ('c13stub.f%d' % i, 'k.m', 'c13stub.K%d' % i):
+        for n, ks in shapes:
+          calls.append('%s(%s)' % (callee, ', '.join([str(j) for j in range(n)] + ["%s='s'" % k for k in ks])))
+      k = env['K%d' % i].__new__(env['K%d' % i])
+      want = []
+      for cl in calls:
+        try:
+          eval(cl, {'c13stub': ns, 'k': k})   # pylint: disable=eval-used
+          want.append(False)
+        except TypeError:
+          want.append(True)
+      prog = '\n'.join(['import c13stub', 'k = c13stub.K%d.__new__(c13stub.K%d)' % (i, i)] +
+                       ['r%d = %s' % (j, cl) for j, cl in enumerate(calls)]) + '\n'
+      try:
+        analysis = io.generate_pyi_ast(prog, popts)
+      except Exception as e:  # pylint: disable=broad-except
+        violations.append(dict(kind='vm-crash', what='analysis raised %r' % (e,), program=prog))
+        continue
+      errs = analysis.context.errorlog.unique_sorted_errors()
+      if any(e.name == 'import-error' for e in errs):
+        raise RuntimeError('the stub on the pythonpath was not found: the sweep over stub functions would be vacuous')
+      got = {e.line: e.name for e in errs if e.name in ERRS}
+      for j, cl in enumerate(calls):
+        npytd += 1
+        if want[j] != ((3 + j) in got) and len(violations) < 20:
+          decl = stub[2 * i] if cl.startswith('c13stub.f') else stub[2 * i + 1].replace('\n', ' ;')
+          violations.append(dict(kind='bind-error', program='# c13stub.pyi:\n# %s\nimport c13stub\n%s' % (decl, cl),
+                                 what='stub: %s ; %s: CPython %s, pytype %s' % (
+                                     decl, cl, 'raises TypeError' if want[j] else 'binds',
+                                     'reports ' + got[3 + j] if (3 + j) in got else 'reports nothing')))
+  finally:
+    shutil.rmtree(d, ignore_errors=True)
   print(json.dumps(dict(
       violations=violations,
       bounded=[dict(function='SignedFunction._map_args through the VM (InterpreterFunction.call)',
                     bound='%d signatures (<=2 positional-only, <=2 positional-or-keyword, <=2 keyword-only, defaults, *args, **kw) x %s call shapes (<=4 positionals, <=2 keywords)' % (
                         min(nsig, len(sigs)), '40 sampled' if tier == 'quick' else 'all 185'), cases=calls),
-               dict(function='SignedFunction.set_function_defaults through the VM (f.__defaults__ = tuple)', bound='9 signatures x 4 tuples x 9 calls', cases=ndef)],
+               dict(function='SignedFunction.set_function_defaults through the VM (f.__defaults__ = tuple)', bound='9 signatures x 4 tuples x 9 calls', cases=ndef),
+               dict(function='InterpreterFunction.call for methods, classmethods (through the class and an instance), staticmethods, __init__ and __new__ through the VM',
+                    bound='6 kinds x %d signatures x %d call shapes (keywords incl. self/cls)' % ((8, 20) if tier == 'quick' else (60, 60)), cases=nmeth),
+               dict(function='PyTDFunction / PyTDSignature binding through the VM (functions, methods and constructors declared in a stub on the pythonpath)',
+                    bound='%d signatures x 3 callees x %d call shapes' % ((16, 15) if tier == 'quick' else (120, 50)), cases=npytd)],
       spec_validation=[dict(spec='bind_ok/bound_value (z3) vs real calls: the kernel is proved equal to the spec, and the VM is compared with real calls here')],
       counts=dict(calls=calls, distinct_shapes=len(nontrivial)))))
 
